@@ -66,3 +66,61 @@ pub fn check(
         }
     }
 }
+
+/// Re-execution oracle.  One *parsed* template is rendered along a sequence of data objects that
+/// contains every ordered pair (a, b) — `a` then `b` on the same template object — and every
+/// render is compared with the reference prediction for its own data.  Anything a renderable
+/// remembers from its previous execution (a hint, a cache, a buffer) shows up as a result that
+/// depends on what was rendered before.  Returns the number of renders compared.
+#[allow(clippy::too_many_arguments)]
+pub fn check_reexec(
+    report: &Report,
+    prop: &str,
+    class: &str,
+    idx: u64,
+    parser: &liquid::Parser,
+    text: &str,
+    partials: &[(String, String)],
+    datas: &[V],
+    expected: &[R<String>],
+) -> u64 {
+    let tmpl = match crate::cfgs::parse_guarded(parser, text) {
+        Ok(Ok(t)) => t,
+        Ok(Err(e)) => {
+            report.violation(&format!("{prop}|{class}|well-formed-program-rejected"), idx, witness(text, &datas[0], partials), format!("parse error: {}", crate::cfgs::first_line(&e)));
+            return 0;
+        }
+        Err(pi) => {
+            report.violation(&format!("{prop}|{class}|{}", pi.sig()), idx, witness(text, &datas[0], partials), pi.describe());
+            return 0;
+        }
+    };
+    let globals: Vec<liquid::Object> = datas.iter().map(|d| d.to_object()).collect();
+    let render = |i: usize| -> Outcome {
+        match crate::cfgs::render_guarded(&tmpl, &globals[i]) {
+            Ok(Ok(s)) => Outcome::Ok(s),
+            Ok(Err(e)) => Outcome::RenderErr(e),
+            Err(pi) => Outcome::Panic(pi.describe()),
+        }
+    };
+    let mut n = 0;
+    for a in 0..datas.len() {
+        for b in 0..datas.len() {
+            for (step, cur) in [(0usize, a), (1, b)] {
+                report.eval();
+                let actual = render(cur);
+                let w = || {
+                    let mut j = witness(text, &datas[cur], partials);
+                    j["kind"] = json!("reexec");
+                    j["history"] = json!(if step == 0 { vec![datas[a].to_json()] } else { vec![datas[a].to_json(), datas[b].to_json()] });
+                    j["note"] = json!("the same parsed template is rendered for each entry of `history` in turn; the last render is the one compared");
+                    j
+                };
+                if check(report, prop, class, idx, w, &expected[cur], &actual) {
+                    n += 1;
+                }
+            }
+        }
+    }
+    n
+}
